@@ -7,7 +7,7 @@
 EXTENDS MonCommon
 
 MonInit == [ sid |-> "", sent |-> <<>>, reads |-> <<>>, metaSent |-> <<>>, metaReads |-> <<>>, metaAcks |-> <<>>,
-             faults |-> 0, readers |-> {}, sendFail |-> 0, quiesced |-> FALSE ]
+             faults |-> 0, readers |-> {}, sendFail |-> 0, quiesced |-> FALSE, srcs |-> {}, metaWaits |-> <<>>, lastMetaI |-> 0 ]
 MonReset(e) == MonInit
 
 Norm(gs) == [k \in 1..Len(gs) |-> <<gs[k].id, gs[k].pts>>]
@@ -22,7 +22,10 @@ MonStep(m, e) ==
             [m EXCEPT !.reads = Append(@, [ok |-> e.err = "", seq |-> e.seq, up |-> e.up, upSession |-> e.upSession, upNode |-> e.upNode,
                                             g |-> Norm(e.groups), i |-> e.i, g0 |-> e.g]),
                       !.readers = @ \cup {e.g}]
-      [] e.ev = "BSendMeta" /\ e.sid = m.sid -> [m EXCEPT !.metaSent = Append(@, [src |-> e.src, tag |-> e.tag, rid |-> e.rid])]
+      [] e.ev = "BSendMeta" /\ e.sid = m.sid -> [m EXCEPT !.metaSent = Append(@, [src |-> e.src, tag |-> e.tag, rid |-> e.rid]), !.lastMetaI = e.i]
+      [] e.ev = "BRecvReq" /\ e.kind = "DownstreamOpenRequest" /\ m.srcs = {} -> [m EXCEPT !.srcs = { e.srcs[k] : k \in 1..Len(e.srcs) }]
+      \* a ReadMetadata that waited (at least 200 ms) and came back empty-handed
+      [] e.ev = "ApiRet" /\ e.op = "ReadMeta" /\ e.sid = m.sid /\ e.err = "ctx" /\ e.boundMs >= 200 -> [m EXCEPT !.metaWaits = Append(@, e.i)]
       [] e.ev = "ApiRet" /\ e.op = "ReadMeta" /\ e.sid = m.sid /\ e.err = "" -> [m EXCEPT !.metaReads = Append(@, [src |-> e.src, tag |-> e.tag])]
       [] e.ev = "BRecvMetaAck" -> [m EXCEPT !.metaAcks = Append(@, e.rid)]
       [] e.ev = "Fault" \/ (e.ev = "BLinkDown" /\ e.cause = "script") -> [m EXCEPT !.faults = @ + 1]
@@ -50,13 +53,16 @@ MetaOf(q, src) == SelectSeq(q, LAMBDA x : x.src = src)
 MetaWrong(m) == \E src \in { x.src : x \in RangeS(m.metaSent) } \cup { x.src : x \in RangeS(m.metaReads) } :
                     LET a == MetaOf(m.metaSent, src)  b == MetaOf(m.metaReads, src)
                     IN Len(b) > Len(a) \/ \E k \in 1..Len(b) : b[k].tag # a[k].tag
+\* an item sent for a subscribed source node was never returned although the consumer waited for it after everything had been sent
+MetaLost(m) == /\ \E w \in RangeS(m.metaWaits) : w > m.lastMetaI
+               /\ \E src \in m.srcs : Len(MetaOf(m.metaReads, src)) < Len(MetaOf(m.metaSent, src))
 MetaAckWrong(m) == m.quiesced /\ (\/ Len(m.metaAcks) # Len(m.metaReads)
                                   \/ \E r \in RangeS(m.metaAcks) : ~\E x \in RangeS(m.metaSent) : x.rid = r)
 
 Clause(name, b) == IF b THEN {name} ELSE {}
 MonVerdict(m) == IF ~Premise(m) THEN Clause("ErrorWithChunk", ErrorWithChunk(m))
                  ELSE Clause("OrderOrContentWrong", OrderWrong(m)) \cup Clause("MultiReaderWrong", MultiWrong(m))
-                      \cup Clause("ErrorWithChunk", ErrorWithChunk(m)) \cup Clause("MetaWrong", MetaWrong(m)) \cup Clause("MetaAckWrong", MetaAckWrong(m))
+                      \cup Clause("ErrorWithChunk", ErrorWithChunk(m)) \cup Clause("MetaWrong", MetaWrong(m)) \cup Clause("MetaAckWrong", MetaAckWrong(m)) \cup Clause("MetaLost", MetaLost(m))
 MonStats(m) == [ premise |-> IF Premise(m) THEN 1 ELSE 0, sent |-> Len(m.sent), reads |-> Len(m.reads),
                  okReads |-> Cardinality({ k \in 1..Len(m.reads) : m.reads[k].ok }),
                  errReads |-> Cardinality({ k \in 1..Len(m.reads) : ~m.reads[k].ok }),
